@@ -282,6 +282,43 @@ func corpusCases() []hp {
 		h.c.Args["note"] = "literal " + payloadStats(kids)
 		out = append(out, h)
 	}
+	// ---- round 3 (seeded defect c06-5): attribute bits besides PROCESSING_REQUIRED on compressed sections.  The tool decodes
+	// on bit 0 whatever the other bits say; a save has to re-encode under the same rule and keep the other bits.
+	{
+		b := newBuilt()
+		z := b.comp("ZLIB", "go", []*hu.Sec{pe32Sec(0xA3, 90), {Kind: "su", Name: []rune("Auth")}})
+		z.Attrs = 0x8001
+		inner := plainFV([]*hu.File{rawFile(0xA4, 60), sectFile(0xA5, 7, z)}, 200, 8)
+		c := b.comp("LZMA", "xz", []*hu.Sec{{Kind: "sf", FV: inner}})
+		c.Attrs = 3 // PROCESSING_REQUIRED | AUTH_STATUS_VALID
+		x := b.comp("LZMAX86", "go", []*hu.Sec{pe32Sec(0xA6, 120), {Kind: "sl", Type: 0x19, Body: rep(7, 9)}})
+		x.Attrs = 0xFFFF
+		top := plainFV([]*hu.File{sectFile(0xA7, 0x0B, c), sectFile(0xA8, 7, x, &hu.Sec{Kind: "sl", Type: 0x19, Body: rep(9, 5)})}, 4096, 8)
+		out = append(out, b.finish("comp-attrs-auth", "go", top, nil))
+		// the same with an insert into the nested volume (the new file brings a section with attributes 3 as well)
+		b2 := newBuilt()
+		a2 := rawFile(0xA4, 60)
+		inner2 := plainFV([]*hu.File{a2}, 200, 8)
+		c2 := b2.comp("LZMAX86", "go", []*hu.Sec{{Kind: "sf", FV: inner2}})
+		c2.Attrs = 3
+		n2 := b2.comp("LZMA", "go", []*hu.Sec{pe32Sec(0xA9, 70)})
+		n2.Attrs = 3
+		top2 := plainFV([]*hu.File{sectFile(0xA7, 0x0B, c2)}, 4096, 8)
+		out = append(out, b2.finish("comp-attrs-auth-insert", "xz", top2, insertEnd(inner2, a2, sectFile(0xAA, 7, n2))))
+	}
+	// ---- round 3 (seeded defect c06-6): header-only sections (4 bytes): the last one of a decoded payload, the only one,
+	// behind a volume image, the last one of a file (top-level and nested), the first one
+	{
+		b := newBuilt()
+		e := func(t uint8) *hu.Sec { return &hu.Sec{Kind: "sl", Type: t} }
+		c1 := b.comp("LZMA", "go", []*hu.Sec{pe32Sec(0xB3, 50), e(0x19)})
+		c2 := b.comp("ZLIB", "go", []*hu.Sec{e(0x19)})
+		inner := plainFV([]*hu.File{sectFile(0xB4, 7, pe32Sec(0xB4, 33), e(0x18)), rawFile(0xB5, 40)}, 100, 8)
+		c3 := b.comp("LZMAX86", "xz", []*hu.Sec{e(0x12), {Kind: "sf", FV: inner}, e(0x19)})
+		top := plainFV([]*hu.File{sectFile(0xB6, 7, c1), sectFile(0xB7, 7, e(0x19), c2), sectFile(0xB8, 0x0B, c3),
+			sectFile(0xB9, 7, pe32Sec(0xB9, 21), e(0x19))}, 4096, 8)
+		out = append(out, b.finish("comp-empty-last", "xz", top, nil))
+	}
 	sort.Slice(out, func(i, j int) bool { return out[i].name < out[j].name })
 	return out
 }
